@@ -25,9 +25,12 @@ Definition out_eqb (a b : out) : bool :=
 
 Definition entry_eqb := prod_eqb N.eqb N.eqb.
 
+(* The model's map is key-unique, so sorting it by root gives one result whatever the order of the
+   list; [rev] only makes the insertion sort linear on the long chains, whose roots enter the map
+   in ascending order (the list is newest first). *)
 Definition agree (c : case) : bool :=
   let '(s, outs) := run init (c_ops c) in
-  list_eqb out_eqb outs (c_outs c) && list_eqb entry_eqb (sort_by fst s) (c_final c).
+  list_eqb out_eqb outs (c_outs c) && list_eqb entry_eqb (sort_by fst (rev s)) (c_final c).
 
 (* The property evaluated on the OBSERVED outputs alone (the model is not consulted; the head
    events are transparent to it: whatever a head event stores must agree with the chain, which the
@@ -44,9 +47,6 @@ Definition agree (c : case) : bool :=
      slot; an error answer needs a failing fetch of the same root within the group (its own, or --
      for an implementation that shares fetches -- another goroutine's); a root answered with a
      slot must be cached after the group. *)
-Definition chain_slot (chain : list (root * slot)) (r : root) : slot :=
-  match get chain r with Some sl => sl | None => 0 end.
-
 Definition find_answer (ans : list answer) (i : N) : option (option slot) :=
   match find (fun a => answer_id a =? i) ans with
   | Some a => Some (snd a)
@@ -56,9 +56,17 @@ Definition find_answer (ans : list answer) (i : N) : option (option slot) :=
 Definition fails_on (all : list pev) (r : root) : bool :=
   existsb (fun e => match e with PEnd _ r' None => r' =? r | _ => false end) all.
 
-Definition known_after_clean (chain : list (root * slot)) (known : list root) (e spe : N) : list root :=
+(* The roots that must be cached, each with what the chain says of it ([get chain r], looked up
+   once when the root enters the list: the long-chain histories carry thousands of roots). *)
+Definition kroot := (root * option slot)%type.
+Definition kadd (chain : list (root * slot)) (r : root) (known : list kroot) : list kroot :=
+  (r, get chain r) :: known.
+Definition kmem (r : root) (known : list kroot) : bool := existsb (fun k => fst k =? r) known.
+Definition kslot (k : kroot) : slot := match snd k with Some sl => sl | None => 0 end.
+
+Definition known_after_clean (known : list kroot) (e spe : N) : list kroot :=
   if e <=? retention then known
-  else filter (fun r => negb (chain_slot chain r <? min_slot e spe)) known.
+  else filter (fun k => negb (kslot k <? min_slot e spe)) known.
 
 (* None = violated; Some known' = the roots that must be cached after the group.
    WHEN, between its begin and its answer, a lookup that misses stores the fetched slot is the
@@ -68,22 +76,22 @@ Definition known_after_clean (chain : list (root * slot)) (known : list root) (e
    answered with a slot ([cands]) must be cached at the end of the group unless a cleaning run that
    came after the lookup's begin was entitled to remove them. *)
 Fixpoint par_ok (chain : list (root * slot)) (ans : list answer) (all : list pev)
-         (known cands : list root) (evs : list pev) : option (list root) :=
+         (known cands : list kroot) (evs : list pev) : option (list kroot) :=
   match evs with
   | [] => Some (cands ++ known)
   | PBegin i r :: evs' =>
       match find_answer ans i with
       | None => None                                   (* every lookup is answered *)
-      | Some (Some _) => par_ok chain ans all known (r :: cands) evs'
+      | Some (Some _) => par_ok chain ans all known (kadd chain r cands) evs'
       | Some None =>
-          if memb N.eqb r known then None              (* it must have been a hit *)
+          if kmem r known then None                    (* it must have been a hit *)
           else if fails_on all r then par_ok chain ans all known cands evs'
           else None                                    (* an error without any failing fetch of that root *)
       end
   | PEnd _ _ _ :: evs' => par_ok chain ans all known cands evs'
-  | PEvent r _ :: evs' => par_ok chain ans all (r :: known) cands evs'
+  | PEvent r _ :: evs' => par_ok chain ans all (kadd chain r known) cands evs'
   | PClean e spe :: evs' =>
-      par_ok chain ans all (known_after_clean chain known e spe) (known_after_clean chain cands e spe) evs'
+      par_ok chain ans all (known_after_clean known e spe) (known_after_clean cands e spe) evs'
   end.
 
 Definition answer_slot_ok (chain : list (root * slot)) (a : answer) : bool :=
@@ -92,18 +100,18 @@ Definition answer_slot_ok (chain : list (root * slot)) (a : answer) : bool :=
   | (_, _, None) => true
   end.
 
-Fixpoint spec_ok (chain : list (root * slot)) (known : list root) (ops : list op) (outs : list out)
+Fixpoint spec_ok (chain : list (root * slot)) (known : list kroot) (ops : list op) (outs : list out)
          (final : list (root * slot)) : bool :=
   match ops, outs with
-  | [], [] => forallb (fun r => option_eqb N.eqb (get final r) (get chain r)) known
+  | [], [] => forallb (fun k => option_eqb N.eqb (get final (fst k)) (snd k)) known
               && forallb (fun p => option_eqb N.eqb (get chain (fst p)) (Some (snd p))) final
   | o :: ops', x :: outs' =>
       match o, x with
-      | Event r _, ONone => spec_ok chain (r :: known) ops' outs' final
+      | Event r _, ONone => spec_ok chain (kadd chain r known) ops' outs' final
       | Lookup r _, OSlot sl =>
-          option_eqb N.eqb (get chain r) (Some sl) && spec_ok chain (r :: known) ops' outs' final
-      | Lookup r None, OErr => negb (memb N.eqb r known) && spec_ok chain known ops' outs' final
-      | Clean e spe, ONone => spec_ok chain (known_after_clean chain known e spe) ops' outs' final
+          option_eqb N.eqb (get chain r) (Some sl) && spec_ok chain (kadd chain r known) ops' outs' final
+      | Lookup r None, OErr => negb (kmem r known) && spec_ok chain known ops' outs' final
+      | Clean e spe, ONone => spec_ok chain (known_after_clean known e spe) ops' outs' final
       | Head _ _ _, ONone => spec_ok chain known ops' outs' final
       | Par evs, OMany ans =>
           forallb (answer_slot_ok chain) ans &&
